@@ -522,7 +522,18 @@ while i < len(lines):
 
     # ---------------------------------------------------------------- the property on the implementation's output
     def oracle(self, case, out):
-        if case[0] == 'M': return self._oracle_e4(case, out)
+        if case[0] == 'M':
+            msg = self._oracle_e4(case, out)
+            m = re.search(r'after `([^`]*)`', msg or '')
+            if m:       # spell the failing command prefix out as labels of C05_Model.step (computed by the model runner)
+                try:
+                    mo = self._e4_model([case])[0] or ''
+                    k = len(m.group(1).split())
+                    labs = [' '.join(re.findall(r'\{([^}]*)\}', seg)) for seg in mo.split(' ;; ')[1:k + 1]]
+                    msg += '  [labels of C05_Model.step: %s]' % ' | '.join(labs)
+                except Exception:
+                    pass
+            return msg
         if case[0] == 'A': return self._oracle_asym(case, out)
         return self._oracle_prog(case, out)
 
